@@ -5,8 +5,9 @@
    B0[I0] = Id, I0 distinct valid rows (the oracle contract; full column rank enters only here).
    [mv_inv K A I B] is that same triple of facts, [maxvol_post] / [rect_post] / [sel_post] are the clauses of the
    property text in matrix form ([meq], [mmul], [mrows], [mid] of Lin/Mat.v).
-   [maxvol_rect] is the model of the REPAIRED code (arg-max over the rows not selected so far),
-   [maxvol_rect_pinned] the code as pinned ( i = np.argmax(F) ); see C08_rect_distinct_refuted. *)
+   [maxvol_rect] ( = maxvol_rect_gen true ) is the model of the code: i = np.argmax(np.where(S > 0, F, -1.))
+   (/repo cac7db0).  [maxvol_rect_pinned] ( = maxvol_rect_gen false ) is the code as pinned, i = np.argmax(F); it is
+   kept only as the subject of the machine-checked finding C08_rect_distinct_refuted. *)
 From Coq Require Import List Arith Lia PeanoNat ZArith QArith Qcanon.
 From TV Require Import Num.Ops Lin.Mat Model.Maxvol Proofs.MaxvolP Proofs.MaxvolRectP.
 Import ListNotations.
@@ -43,7 +44,26 @@ Theorem C08_rect_inv : forall (T : Type) (K : ops T), ordfield K ->
   rect_inv K A (I ++ [i]) (mask_off Sm i) (rect_update K B i v l) (rect_F K (mask_off Sm i) F v l (mr B)).
 Proof. exact @rect_step_inv. Qed.
 
-(* repaired code, all 0 <= dr_min <= dr_max (or dr_max = None) with r + dr_min <= n:
+(* np.argmax is modelled as the FIRST maximum: it is in range, a maximum, strictly above everything before it, and
+   these three facts determine it *)
+Theorem C08_argmax_first : forall (T : Type) (K : ops T), ordfield K -> forall f n, (0 < n)%nat ->
+  (argmaxf K f n < n)%nat /\
+  (forall a, (a < n)%nat -> oleb K (f a) (f (argmaxf K f n)) = true) /\
+  (forall a, (a < argmaxf K f n)%nat -> oltb K (f a) (f (argmaxf K f n)) = true) /\
+  (forall i, (i < n)%nat -> (forall a, (a < n)%nat -> oleb K (f a) (f i) = true) ->
+             (forall a, (a < i)%nat -> oltb K (f a) (f i) = true) -> argmaxf K f n = i).
+Proof. exact @argmaxf_spec. Qed.
+(* the line of the fix: np.argmax(np.where(S > 0, F, -1.)) is the first maximum of F among the rows with S > 0,
+   as soon as such a row exists (argmax_mask = Some i) and every such row has F > -1 (in the loop F >= 0) *)
+Theorem C08_rect_argmax_masked : forall (T : Type) (K : ops T), ordfield K -> forall s f n i,
+  argmax_mask K s f n = Some i ->
+  (forall a, (a < n)%nat -> s a = true -> oltb K (oopp K (o1 K)) (f a) = true) ->
+  argmaxf K (where_mask K s f) n = i /\
+  (i < n)%nat /\ s i = true /\ (forall a, (a < n)%nat -> s a = true -> oleb K (f a) (f i) = true) /\
+  (forall a, (a < i)%nat -> s a = true -> oltb K (f a) (f i) = true).
+Proof. exact @rect_argmax_masked. Qed.
+
+(* the code, all 0 <= dr_min <= dr_max (or dr_max = None) with r + dr_min <= n, NO hypothesis on the residuals:
    between r + dr_min and min(n, r + dr_max) DISTINCT valid rows, A = B A[I], B[I] = Id, and every squared row
    norm of B is <= e*e when the loop stopped before the upper limit (st = true) *)
 Theorem C08_rect_spec : forall (T : Type) (K : ops T), ordfield K ->
@@ -62,8 +82,8 @@ Theorem C08_one_le_sq : forall (T : Type) (K : ops T), ordfield K ->
   forall e, oleb K (o1 K) e = true -> oleb K (o1 K) (omul K e e) = true.
 Proof. exact @one_le_sq. Qed.
 
-(* pinned code: on every run in which each selected residual is positive it returns exactly what the repaired
-   code returns, so C08_rect_spec transfers (distinct rows under the hypothesis F[argmax] > 0) *)
+(* pinned code: on every run in which each selected residual is positive it returns exactly what the code
+   returns, so C08_rect_spec transfers (distinct rows under the hypothesis F[argmax] > 0) *)
 Theorem C08_rect_pinned_agrees : forall (T : Type) (K : ops T), ordfield K ->
   forall (lu_init : @lu_t T) A e dr_min dr_max e0 k0,
   (0 < mc A)%nat -> (mc A < mr A)%nat -> oleb K (o0 K) e0 = true -> lu_contract K A (lu_init A) ->
@@ -149,14 +169,19 @@ Example C08_maxvol_example :
   maxvol OQc (lu_exec OQc) (mk_mat 2 2 [[Q2Qc 1; Q2Qc 0]; [Q2Qc 0; Q2Qc 1]]) (Q2Qc (21 # 20)) 5 = Err ValueError.
 Proof. split; [|split]; [eexists; vm_compute; reflexivity | eexists; vm_compute; reflexivity | reflexivity]. Qed.
 
-(* repaired maxvol_rect on the input of the finding: distinct rows; on A_ex with dr_min = dr_max = 1 the pinned run
-   selects only positive residuals (hypothesis of C08_rect_pinned_agrees) *)
+(* maxvol_rect on the input of the finding: distinct rows; on A_ex with dr_min = dr_max = 1 the pinned run
+   selects only positive residuals (hypothesis of C08_rect_pinned_agrees); three zero rows and forced growth:
+   the zero rows are added in order, B[I] = Id *)
 Example C08_rect_example :
   (exists B, maxvol_rect OQc (lu_exec OQc) A_S1 (Q2Qc (11 # 10)) 1 (Some 1%Z) (Q2Qc (21 # 20)) 10 = Ok ([0; 1]%nat, B)) /\
   rect_pos_full OQc (lu_exec OQc) A_ex (Q2Qc (11 # 10)) 1 (Some 1%Z) (Q2Qc (21 # 20)) 5 /\
   (exists B, maxvol_rect_pinned OQc (lu_exec OQc) A_ex (Q2Qc (11 # 10)) 1 (Some 1%Z) (Q2Qc (21 # 20)) 5 = Ok ([2; 1; 0]%nat, B)) /\
-  maxvol_rect OQc (lu_exec OQc) A_ex (Q2Qc (11 # 10)) 2 (Some 1%Z) (Q2Qc (21 # 20)) 5 = Err ValueError.
+  maxvol_rect OQc (lu_exec OQc) A_ex (Q2Qc (11 # 10)) 2 (Some 1%Z) (Q2Qc (21 # 20)) 5 = Err ValueError /\
+  (exists B, maxvol_rect OQc (lu_exec OQc) (mk_mat 4 1 [[Q2Qc 0]; [Q2Qc 2]; [Q2Qc 0]; [Q2Qc 0]])
+                (Q2Qc (11 # 10)) 2 None (Q2Qc (21 # 20)) 10 = Ok ([1; 0; 2]%nat, B) /\
+             meqb OQc (mrows OQc B [1; 0; 2]%nat) (mid OQc 3) = true).
 Proof.
   split; [eexists; vm_compute; reflexivity|]. split; [vm_compute; repeat split|].
-  split; [eexists; vm_compute; reflexivity | reflexivity].
+  split; [eexists; vm_compute; reflexivity|]. split; [reflexivity|].
+  eexists. split; vm_compute; reflexivity.
 Qed.
